@@ -2352,14 +2352,23 @@ def _structure_wigner_rotation(ctx: Check, tree: Tree, judge: Judge) -> None:
     for x in subterms(value):
         if x[0] == "call" and func_name(x) == rot_q and x not in calls:
             calls.append(x)
-    if len(calls) != 1:
+    if not calls:
         raise AnalysisError(f"{fn.qual}: expected one call of formulate_helicity_rotation")
-    _require_known(fn.qual, calls[0])
+    for c_ in calls:
+        _require_known(fn.qual, c_)
     if "helicity_symbol" not in fn.params or "m_prime" not in fn.params:
         raise AnalysisError(f"{fn.qual}: parameters helicity_symbol / m_prime not found")
     sym = ("param", "helicity_symbol")
     none_given = ("cmp", "is", sym, NONE)
-    seen_cases = cases(calls[0])
+    # every path returns ONE rotation: `return f(.., k=a if c else b)`, `if c: return f(.., k=a) / return f(.., k=b)` and a
+    # temporary are the same thing - the cases are (path condition of the return + conditions inside the call, call)
+    seen_cases = []
+    for pc0, v0 in alternatives(value):
+        here = [x for x in subterms(v0) if x[0] == "call" and func_name(x) == rot_q]
+        here = [x for i, x in enumerate(here) if x not in here[:i]]
+        if len(here) != 1:
+            raise AnalysisError(f"{fn.qual}: expected one call of formulate_helicity_rotation on every path (found {len(here)} under `{show_pc(pc0)[:50]}`)")
+        seen_cases += [((*pc0, *pc1), c1) for pc1, c1 in cases(here[0])]
     for pc, c in seen_cases:
         v = _call_arg(tree, c, rot_q, "spin_projection")
         if v is None:
